@@ -38,13 +38,13 @@ pub(crate) struct Chip {
     /// the call under test is LoRa::listen (RSSI measurement without packet reception)
     pub listen_only: bool,
 }
-pub(crate) static mut CHIP: Chip = Chip {
+pub(crate) static mut CHIP: Uq<Chip> = Uq { magic: 0x6C72760032E6EFE0, v: Chip {
     mode: ChipMode::Sleep, duty_sleeping: false, init: false, txpower: false, irq: false, modulation: false,
     packet: false, freq: false, payload: false, asleep_cmd: false, dep_missing: false, calls: 0,
     fail_at: usize::MAX, irq_script: [2; 3], irq_pos: 0, rx_continuous: false, listen_only: false,
-};
+} };
 pub(crate) fn chip() -> &'static mut Chip {
-    unsafe { &mut *core::ptr::addr_of_mut!(CHIP) }
+    unsafe { &mut *core::ptr::addr_of_mut!(CHIP.v) }
 }
 
 pub(crate) struct ModelChip;
